@@ -248,6 +248,8 @@ class Ctx:
                 out[k] = v.concrete(model)
             elif z3.is_expr(v):
                 out[k] = ev(v)
+            elif callable(v):
+                out[k] = v(model)        # a part of the call that is read off the model (e.g. the predicate's table)
             else:
                 out[k] = v
         return out
